@@ -12,10 +12,10 @@ import numpy as np
 from unittest import mock
 from harness import util
 
-THEOREMS = ['C04_tref_split_invariance', 'C04_tref_split_invariance_moist', 'C04_lnps_invariance',
-            'C04_column_commutes', 'C04_temperature_modal_invariance', 'C04_divergence_invariance',
-            'C04_vorticity_invariance', 'C04_divergence_invariance_moist', 'C04_vorticity_invariance_moist',
-            'C04_tref_split_cloud_refuted', 'C04_tref_split_invariance_R', 'C04_hyps_satisfiable']
+THEOREMS = ['C04_tref_split_invariance', 'C04_tref_split_invariance_moist', 'C04_tref_split_closed_form',
+            'C04_H_is_explicit_counterpart', 'C04_lnps_invariance', 'C04_effective_pgf_invariant',
+            'C04_effective_pgf_invariant_dry', 'C04_effective_pgf_cloud_defect', 'C04_hyps_satisfiable',
+            'C04_tref_split_cloud_refuted', 'C04_tref_split_invariance_R']
 LEVEL = 'proof'
 LEVEL_TEXT = ('machine-checked theorems (Coq) for every field, every layer count K>=1, all level sets, all column data and '
               'any two reference profiles with the same absolute temperature: the nodal temperature tendency '
@@ -27,7 +27,10 @@ LEVEL_TEXT = ('machine-checked theorems (Coq) for every field, every layer count
 LEVEL_NOTE = ('theorems are about the Gallina model Model/PrimEq.v (+ Model/Implicit.v, Model/Sigma.v); horizontal '
               'transforms are abstract linear operators in the theorems and are not executed in the model; the model is '
               'tied to the code by differential correspondence on nodal columns of recorded to_modal arguments; '
-              'log(centers) enters as a table')
+              'log(centers) enters as a table; scope: include_vertical_advection=True (the default) - with the option off '
+              'the code drops the vertical advection of T\' but keeps that of T_ref (explicitly and inside H), so totals '
+              'differ for non-uniform profiles (correspondence still covers the option); the cloud-moist class with '
+              'non-zero condensate is a registered known finding (fixed runner cloud_nonzero)')
 TECHNIQUE = 'proof+differential-correspondence+metamorphic-oracle'
 
 CLOUD_CLAUSE = 'cloud-moist class: total tendency independent of T_ref with non-zero cloud condensate'
